@@ -30,6 +30,34 @@ CHECKS = {
          "plus substitution of the returned bindings on the implementation (instances, single-feature mutants, patterns whose expression contains wildcards)."),
    note=TB + "Modelled, not verified: Expr.v (get_r/get_w/get_expr_ids/MatchExpr/test_set).",
    design='4/C16'),
+ 'C05': dict(
+   technique='Gallina model of expr_simp (every rewrite rule, merge_sliceto_slice, the fixpoint loop) tied by exact-tree correspondence; Coq theorems on the model (growing: see level text); exhaustive 2^16-valuation search on disagreement',
+   text=("Model Simp.v mirrors _expr_simp rule for rule (flatten/sort/constant folding, 25 rules, slice/compose merging, the visit + while e_new != e loop with explicit fuel). "
+         "Tie: exact result trees on rule-targeted families (one per rule and side condition, permuted, embedded in contexts) and typed random trees; on any disagreement the check evaluates "
+         "width and value of input vs output under all 2^16 valuations (two 8-bit variables) or boundary cross-products. Theorems currently in props/C05.v are instance-level (vm_compute); the "
+         "universal soundness theorem simp_sound is work in progress in this round and NOT yet claimed — until then this property is decided by the tie + search, i.e. below proof strength."),
+   note=TB + "Modelled, not verified: Simp.v (hand transcription of expression_helper.py). The universal theorem (all trees x all valuations) is not yet proved; termination is bounded by explicit fuel (OutOfFuel is a distinct outcome that the correspondence never observed).",
+   design='4/C05', category='other'),
+ 'C13': dict(
+   technique='Gallina model of expr_simp tied by exact-tree correspondence under several PYTHONHASHSEED values; idempotence and order-insensitivity evaluated on groups of permuted/re-associated spellings',
+   text=("The model (a pure function: no hash-order input) is compared with expr_simp under PYTHONHASHSEED 0,1,2 (quick) / 0..15 (thorough) on groups of expressions differing only by order/nesting of "
+         "+ * ^ & | operands (rule families, random trees, multisets of atoms, deep twins that differ only far down), each simplified once and twice. Universal theorems (idempotence via a stability "
+         "invariant, permutation invariance of the sort) are work in progress and not yet claimed."),
+   note=TB + "Cross-process behaviour (hash seeds) is a runtime fact outside Gallina: exercised by running the implementation under each seed. dump_mem() ordering (ExprMem.__lt__ compares id()) is not covered.",
+   design='4/C13', category='other'),
+ 'C06': dict(
+   technique='Gallina model of eval_abs.eval_expr (all seven node kinds, constant folding per operator, same-address memory cells) tied by exact-tree correspondence; substitution property evaluated under valuations on disagreement',
+   text=("Model EvalAbs.v mirrors eval_expr / eval_ExprOp+deal_op / eval_ExprCond / eval_ExprSlice / eval_ExprCompose / eval_ExprMem. Tie: exact result trees on (state, expression) pairs mixing constant, "
+         "symbolic and absent bindings, all operators at arity 2..5 with constant operands, conditions/concatenations whose parts become constants. Universal substitution theorem is work in progress, not yet claimed."),
+   note=TB + "Modelled, not verified: EvalAbs.v. States follow the init_* discipline (bindings over free symbols, already evaluated); is_eval/is_term flags and eval_cache are outside this model (C12).",
+   design='4/C06', category='other'),
+ 'C07': dict(
+   technique='Gallina model of eval_instr / get_mem_overlapping / substract_mems / the four read paths of eval_ExprMem tied by exact-output correspondence on store/load histories; every read-back evaluated against a concrete little-endian byte memory',
+   text=("All 1-store x 1-load histories, 2-store histories (quick: seeded sample; thorough: exhaustive 13824 per base) over widths 8/16/32 x offsets 0..7 x constant/symbolic base, random 3..12-store histories and "
+         "'image' histories (adjacent slices of one symbol): model state dump and read-back trees == implementation, and every implementation read-back == byte-memory interpreter under 3 valuations. "
+         "rep-prefixed string instructions with concrete counts are compared with their unrolled steps on the implementation (exploration, no model of the lifter yet). Invariant theorems (disjoint cells, read-back) not yet proved."),
+   note=TB + "Modelled, not verified: EvalAbs.v (memory paths). Instruction-sequence composition over lifted x86 semantics is covered only through the rep/unrolled comparison so far.",
+   design='4/C07', category='other'),
 }
 PENDING = {p: 'check under construction in this round (see DESIGN.md section 6 staging); not claimed yet' for p in ALL}
 def main():
